@@ -26,10 +26,12 @@ import (
 	"os"
 	"runtime/debug"
 	"strconv"
+	"strings"
 	"testing"
 	"testing/synctest"
 	"time"
 
+	secp256k1 "gitlab.com/yawning/secp256k1-voi"
 	"gitlab.com/yawning/secp256k1-voi/secec"
 	"gitlab.com/yawning/secp256k1-voi/secec/bitcoin"
 
@@ -94,6 +96,9 @@ type outcome struct {
 }
 
 func runOne(t *testing.T, prop string, verifSeed uint64, idx int, src map[string][]kernel.Choice) (out *kernel.Result) {
+	if prop == "C18" {
+		return runAging(t, prop, verifSeed, idx, src)
+	}
 	res := &kernel.Result{World: "stall", Prop: prop, Variant: "asm-go1.26", VerifSeed: verifSeed, Idx: idx}
 	res.RunSeed = kernel.RunSeed(verifSeed, "stall", idx)
 	var tp *kernel.Tape
@@ -288,6 +293,126 @@ func runOne(t *testing.T, prop string, verifSeed uint64, idx int, src map[string
 	res.WallUS = time.Since(start).Microseconds()
 	res.Tape = tp.Record()
 	res.Sig = fmt.Sprintf("%d/%d/%v/%v/%v/%v/%v", dev.deliver, dev.chunk, dev.stall, observeAfter, selfVerify, viaGlobal, dev.resume)
+	return res
+}
+
+// runAging: key objects are immutable - also over time.  Keys are built
+// inside a bubble, observed, left alone for 1 s .. 1000 h of simulated time
+// (every timer the library may have armed fires), and observed again.
+func runAging(t *testing.T, prop string, verifSeed uint64, idx int, src map[string][]kernel.Choice) (out *kernel.Result) {
+	res := &kernel.Result{World: "stall", Prop: prop, Variant: "asm-go1.26", VerifSeed: verifSeed, Idx: idx}
+	res.RunSeed = kernel.RunSeed(verifSeed, "stall", idx)
+	var tp *kernel.Tape
+	if src != nil {
+		tp = kernel.NewReplayTape(res.RunSeed, src)
+	} else {
+		tp = kernel.NewTape(res.RunSeed)
+	}
+	run := kernel.NewRun(tp, res, true)
+	start := time.Now()
+	defer func() {
+		if e := recover(); e != nil {
+			stack := string(debug.Stack())
+			if fn, inLib := kernel.PanicOrigin(stack); inLib {
+				run.Violate(prop, "library-panic", fn, 0, "a library call with valid arguments panicked: %v (raised in %s)\n%s", e, fn, stack)
+			} else {
+				run.Violate("HARNESS", "harness-panic", "stall", 0, "%v\n%s", e, stack)
+			}
+			run.Finish()
+			res.Tape = tp.Record()
+			out = res
+		}
+	}()
+	d := new(big.Int).Add(big.NewInt(1), new(big.Int).Mod(ref.OS2IP(tp.Bytes("fixture", "key", 32)), new(big.Int).Sub(ref.N, big.NewInt(1))))
+	peerD := new(big.Int).Add(big.NewInt(1), new(big.Int).Mod(ref.OS2IP(tp.Bytes("fixture", "peer", 32)), new(big.Int).Sub(ref.N, big.NewInt(1))))
+	digest := tp.Bytes("ops", "digest", 32)
+	idle := []time.Duration{time.Second, 90 * time.Second, time.Hour, 25 * time.Hour, 1000 * time.Hour}[tp.Choose("ops", "idle", 5)]
+	touchFirst := tp.Bool("ops", "touch_before_idle") // observe (and so warm every lazy field) before the idle period, or only after it
+	how := tp.Choose("ops", "constructor", 3)
+	run.Hist("key=%x peer=%x digest=%x constructor=%d idle=%v observed_before_idle=%v", ref.I2OSP32(d), ref.I2OSP32(peerD), digest, how, idle, touchFirst)
+	run.Fault("time_passes_between_uses_of_a_key")
+	run.Fault(fmt.Sprintf("idle_%v", idle))
+	run.Res.Ops = 2
+
+	observe := func(priv *secec.PrivateKey, pub *secec.PublicKey, spriv *bitcoin.SchnorrPrivateKey, peer *secec.PublicKey) string {
+		sig, serr := priv.Sign(secec.RFC6979SHA256(), digest, nil)
+		ssig, sserr := spriv.Sign(bytes.NewReader(make([]byte, 32)), digest, nil)
+		sh, eerr := priv.ECDH(peer)
+		okv := pub.Verify(digest, sig, nil)
+		oks := spriv.PublicKey().Verify(digest, ssig)
+		return fmt.Sprintf("priv=%x pub=%x/%x spub=%x rfc6979sig=%x/%v schnorrsig=%x/%v ecdh=%x/%v verify=%v/%v equal=%v", priv.Bytes(), pub.Bytes(), pub.CompressedBytes(), spriv.PublicKey().Bytes(), sig, serr, ssig, sserr, sh, eerr, okv, oks, priv.PublicKey().Equal(pub))
+	}
+	// what fresh objects built from the same bytes say, outside any bubble and right away
+	mk := func() (*secec.PrivateKey, *secec.PublicKey, *bitcoin.SchnorrPrivateKey, *secec.PublicKey) {
+		var priv *secec.PrivateKey
+		var err error
+		switch how {
+		case 0:
+			priv, err = secec.NewPrivateKey(ref.I2OSP32(d))
+		case 1:
+			sc, _ := secp256k1.NewScalarFromCanonicalBytes((*[32]byte)(ref.I2OSP32(d)))
+			priv, err = secec.NewPrivateKeyFromScalar(sc)
+		default:
+			priv, err = secec.NewPrivateKey(ref.I2OSP32(d))
+		}
+		if err != nil {
+			panic(fmt.Sprintf("fixture: %v", err))
+		}
+		pub := priv.PublicKey()
+		if how == 2 {
+			pub, err = secec.NewPublicKey(pub.CompressedBytes())
+			if err != nil {
+				panic(fmt.Sprintf("fixture: %v", err))
+			}
+		}
+		pk, err := secec.NewPrivateKey(ref.I2OSP32(peerD))
+		if err != nil {
+			panic(fmt.Sprintf("fixture: %v", err))
+		}
+		return priv, pub, bitcoin.NewSchnorrPrivateKeyFromECDSA(priv), pk.PublicKey()
+	}
+	want := observe(mk())
+
+	var before, after string
+	var bubblePanic string
+	func() {
+		defer func() {
+			if e := recover(); e != nil {
+				if s := fmt.Sprint(e); strings.Contains(s, "deadlock: main bubble goroutine has exited") {
+					bubblePanic = s
+					return
+				}
+				panic(e)
+			}
+		}()
+		synctest.Test(t, func(t *testing.T) {
+			priv, pub, spriv, peer := mk()
+			if touchFirst {
+				before = observe(priv, pub, spriv, peer)
+			}
+			time.Sleep(idle)
+			synctest.Wait()
+			after = observe(priv, pub, spriv, peer)
+		})
+	}()
+	if bubblePanic != "" {
+		run.Probe("goroutines_left_blocked_at_end_of_bubble")
+	}
+	run.Hist("before idle: %s", before)
+	run.Hist("after %v: %s", idle, after)
+	switch {
+	case touchFirst && before != want:
+		run.Violate(prop, "key-differs-inside-bubble", "fresh key", 1, "a key built and observed at once (before any simulated time passed) reads\n  %s\nthe same bytes built and observed outside the bubble read\n  %s", before, want)
+	case after != want:
+		run.Violate(prop, "key-changed-with-time", fmt.Sprintf("constructor=%d", how), 2, "a key object was left alone for %v of simulated time (observed before: %v) and then reads\n  %s\nwhen it was new the same key read\n  %s\nkey objects are immutable: nothing but the caller's own calls may change what they do", idle, touchFirst, after, want)
+	default:
+		run.Probe("key_unchanged_after_idle_period")
+	}
+	run.Res.Steps = int(idle / time.Millisecond)
+	run.Finish()
+	res.WallUS = time.Since(start).Microseconds()
+	res.Tape = tp.Record()
+	res.Sig = fmt.Sprintf("aging/%v/%v/%d", idle, touchFirst, how)
 	return res
 }
 
